@@ -21,7 +21,7 @@ def quote (k : Nat) : List Nat :=
 /-- Shell.selfInsert (autopairs off, no completion suffix) -/
 def selfInsert (sh : Sh) : G Sh :=
   match sh.eng.keys.matched with
-  | [] => throw (.oob "Caller()[0]")
+  | [] => pure sh      -- no calling key: nothing is inserted
   | k :: _ =>
     let quoted := if sh.outputMeta ∧ k ≠ 0x1b then [k] else quote k
     let c := (checkAppend sh.line ⟨sh.cur, -1⟩).pos
